@@ -222,3 +222,18 @@ def integrity(inputs, rows, names=None):
             if all(r[1][c] == "-" for r in rows):
                 return "column %d is all gaps" % c
     return None
+
+
+def detect_kind(records):
+    """independent re-statement of kalign's DNA/protein decision on the residue letters: 'dna', 'protein' or None (tie)"""
+    import math
+    both = set("acgtunACGTUN")
+    prot = set("acdefghiklmnpqrstuvwyACDEFGHIKLMNPQRSTUVWY")
+    d = p = 0.0
+    for _, s in records:
+        for ch in s:
+            d += math.log(0.9999 / 12.0) if ch in both else math.log(0.0001 / 116.0)
+            p += math.log(0.9999 / 42.0) if ch in prot else math.log(0.0001 / 88.0)
+    if abs(d - p) < 1e-9:
+        return None
+    return "dna" if d > p else "protein"
